@@ -15,6 +15,8 @@ static void print_parse(echs_instant_t i, int ical)
 {
 	char buf[64]; size_t n = 0; echs_instant_t r = {.u = 0};
 	ND_GUARD(n = ical ? dt_strf_ical(buf, sizeof(buf), i) : dt_strf(buf, sizeof(buf), i));
+	/* the text is parsed with its exact length out of a larger buffer: what follows it there (a blank, a T, a digit, ...) is not part of it */
+	{ static const char fol[] = {0, ' ', 'T', 'Z', ',', '0', '\n', ':', '\t', '-'}; static unsigned fk; if (n + 2 < sizeof(buf)) { buf[n] = fol[fk++ % sizeof(fol)]; buf[n + 1] = 0; } }
 	if (!nd_crashed) ND_GUARD(r = dt_strp(buf, NULL, n));
 	fprintf(o, "{\"e\":\"PrintParse\",\"form\":\"%s\",\"i\":", ical ? "ical" : "iso"); nd_inst(o, i);
 	if (nd_crashed) { fputs(",\"crash\":true}\n", o); return; }
